@@ -22,7 +22,7 @@ LEAN_MODULES = ["Proofs.C13"]
 DRIVERS = ["driver_aave"]
 RULE = ("random operation sequences (2-4 tokens, 27-digit indices, prices over 9 decades, risk tables with zero LTV / non-collateral / "
         "non-borrowable tokens) interleaving every public read with supply/withdraw/borrow/repay(cash|collateral)/change_collateral/"
-        "update/new bar, plus a malformed stream (zero, negative, huge, unknown token, closed market) and price shocks that trigger "
+        "update/new bar, liquidations at exact collateral/debt ties (capped-or-not decided by the 35-digit rounding), plus a malformed stream (zero, negative, huge, unknown token, closed market) and price shocks that trigger "
         "liquidation; bucket = (operation or view, model outcome/rejection cause, argument class, number of filled supply-side and "
         "borrow-side caches before the call)")
 TRUSTED = ["theorems are for every arithmetic context (cache coherence does not depend on rounding); the driver runs the model under "
@@ -31,8 +31,9 @@ TRUSTED = ["theorems are for every arithmetic context (cache coherence does not 
 ASSUMPTIONS = ["theorems: the bar's data has an index/rate row, a price and a risk-table row for every token it lists (EnvOK), lists every "
                "token that is held (Covers) and has non-zero indices (EnvPos); bars whose price vector lacks a held token are exercised by "
                "the oracle only (every valuation must raise KeyError, on cold caches and after an interrupted fill alike — repaired by c25cbec)",
-               "theorems exclude one raise: DemeterError('variable_delt < actual_debt_to_liquidate') in _do_liquidate, which the code places "
-               "after the collateral seizure and before the cache resets (unreachable in exact arithmetic; never produced by 139 000 thorough cases)",
+               "no raise is excluded: DemeterError('variable_delt < actual_debt_to_liquidate') in _do_liquidate used to sit after the collateral "
+               "seizure and before the cache resets and was reachable at exact ties (repaired by d1c4970: checked before anything changes); "
+               "tie sequences exercise that path on every run",
                "broker.allow_negative_balance is False (the default)"]
 
 
@@ -58,16 +59,77 @@ def observe_all(m, toks):
     return warm, cold
 
 
-def run_sequence(ctx: Ctx, rng, nsteps, reqs, meta, exact_env=False, pandas_status=False):
-    env = A.gen_env(rng, exact=exact_env)
-    env["pandas_status"] = pandas_status
-    m, b, actions = A.new_market(env, A.initial_wallet(rng, env))
+def liq_script(rng, env):
+    """a scripted history that ends in a passive liquidation inside a bar whose caches are warm: supply collateral(s), borrow close to
+    the limit (twice the same token: the second borrow meets filled borrow caches), a bar in which the collateral price falls,
+    optional reads, `update()`, reads of the listing views"""
+    toks = env["tokens"]
+    colls = [t for t in toks if env["risk"][t]["canColl"] and env["risk"][t]["lt"] > 0 and env["risk"][t]["ltv"] > 0]
+    debts = [t for t in toks if env["risk"][t]["canBorrow"]]
+    if not colls or not debts:
+        return None, None
+    cs = rng.sample(colls, min(len(colls), rng.choice([1, 1, 2])))
+    script = []
+    limit = D(0)
+    for c in cs:
+        usd = A.log_uniform(rng, 2, 6)
+        amt = (usd / env["price"][c]).quantize(D(10) ** -18)
+        if amt <= 0:
+            return None, None
+        script.append(({"kind": "supply", "tok": c, "amount": fmt(amt), "coll": True}, None))
+        limit += usd * env["risk"][c]["ltv"]
+    ds = rng.sample(debts, min(len(debts), rng.choice([1, 1, 2])))
+    share = A.dec_digits(rng, 0.80, 0.985, 4) / len(ds)
+    for d in ds:
+        a = (limit * share / env["price"][d])
+        k = rng.choice([1, 2, 3])
+        for _ in range(k):      # the same debt token k times within one bar
+            script.append(({"kind": "borrow", "tok": d, "amount": fmt((a / k).normalize())}, None))
+            if rng.random() < 0.5:
+                script.append(({"kind": "read", "view": rng.choice(["borrows", "healthFactor", "totalBorrowsValue", "marketBalance"])}, None))
+    shock = {c: A.dec_digits(rng, 0.3, 0.85, 4) for c in cs}
+    script.append(({"kind": "newBar"}, shock))
+    for _ in range(rng.choice([0, 1, 2])):
+        script.append(({"kind": "read", "view": rng.choice(A.VIEWS0)}, None))
+    script.append(({"kind": "update"}, None))
+    script.append(({"kind": "read", "view": rng.choice(["supplies", "borrows", "marketBalance", "healthFactor"])}, None))
+    if rng.random() < 0.5:
+        script.append(({"kind": "update"}, None))
+    return script, [[t, fmt(A.log_uniform(rng, 6, 8) / env["price"][t])] for t in toks]
+
+
+def run_sequence(ctx: Ctx, rng, nsteps, reqs, meta, exact_env=False, pandas_status=False, tie=False, liq=False):
+    script = None
+    shocks = {}
+    if liq:
+        env = A.gen_env(rng, exact=exact_env)
+        env["pandas_status"] = pandas_status
+        sc, wallet = liq_script(rng, env)
+        if sc is None:
+            return
+        script = [op for op, _ in sc]
+        shocks = {i: sh for i, (_, sh) in enumerate(sc) if sh is not None}
+        nsteps = len(script)
+        m, b, actions = A.new_market(env, wallet)
+    elif tie:
+        # liquidation at an exact collateral/debt tie (capped-or-not decided by the 35-digit rounding), caches warm or cold
+        env, m, b, actions, _ = A.tie_market(rng)
+        script = ([{"kind": "read", "view": rng.choice(A.VIEWS0)}] if rng.random() < 0.7 else []) + [{"kind": "update"}, {"kind": "read", "view": "healthFactor"}]
+        nsteps = len(script)
+    else:
+        env = A.gen_env(rng, exact=exact_env)
+        env["pandas_status"] = pandas_status
+        m, b, actions = A.new_market(env, A.initial_wallet(rng, env))
     last_kind = None
     was_stale = False
     for i in range(nsteps):
         env_next = None
         r = rng.random()
-        if r < 0.07 or (last_kind == "newBar" and r < 0.5):
+        if script is not None:
+            op = script[i]
+            if op["kind"] == "newBar":
+                env_next = A.next_env(rng, env, shocks.get(i))
+        elif r < 0.07 or (last_kind == "newBar" and r < 0.5):
             op = {"kind": "update"}
         elif r < 0.16:
             shock = None
@@ -180,6 +242,10 @@ def run(ctx: Ctx):
     reqs, meta = [], []
     for i in range(nseq):
         run_sequence(ctx, rng, rng.randint(10, 26 if not ctx.thorough else 60), reqs, meta, exact_env=(i % 4 == 3), pandas_status=(i % 8 == 5))
+    for i in range(ctx.scale(12, 120)):
+        run_sequence(ctx, rng, 0, reqs, meta, tie=True)
+    for i in range(ctx.scale(40, 400)):
+        run_sequence(ctx, rng, 0, reqs, meta, liq=True, exact_env=(i % 4 == 3), pandas_status=(i % 8 == 5))
     if ctx.driver_ok:
         outs = driver_json(reqs, exe=A.EXE)
         compare(ctx, reqs, meta, outs)
